@@ -32,7 +32,12 @@ func genC11(rt *rapid.T) clientCase {
 	}
 	n := rapid.IntRange(1, 30).Draw(rt, "nSteps")
 	for i := 0; i < n; i++ {
-		switch rapid.IntRange(0, 11).Draw(rt, "stepClass") {
+		switch rapid.IntRange(0, 13).Draw(rt, "stepClass") {
+		case 12, 13:
+			// the clock moves on between two collector ticks, then a transaction is started
+			frac := rapid.SampledFrom([]int64{1, 2, 4}).Draw(rt, "advanceFraction")
+			c.Ops = append(c.Ops, hop{Op: "advance", RTO: c.RTO/frac + int64(rapid.IntRange(0, 1).Draw(rt, "advanceJitter"))},
+				hop{Op: "start", ID: rapid.IntRange(0, ids-1).Draw(rt, "aid"), Size: rapid.SampledFrom([]int{20, 2052}).Draw(rt, "asize")})
 		case 0, 1, 2, 3, 4:
 			c.Ops = append(c.Ops, hop{Op: "tick", At: "after"})
 		case 5:
